@@ -41,6 +41,12 @@ def _role_ok(role, detail, read, at=None) -> Optional[str]:
         # an IDENTIFIER is never spelled like an entry of the lexer's keyword table (those get their own kinds; the table is
         # R-18.2's business): comparing with one is inert
         bad = [c for c in (detail or []) if c not in SPECIAL_NAMES and c not in _lexer_keywords()]
+        if detail is not None and not bad and getattr(detail, "folded", False):
+            # directive words are read without regard to case (the tool accepts `#DEFINE`); every other special name is
+            # special in one spelling only: folded, the test also singles out DEFINED / Environ / ...
+            wider = [c for c in detail if c.lower() not in DIRECTIVES and c not in _lexer_keywords()]
+            if wider:
+                return f"comparison, after folding the case, with the special spelling(s) {wider}: other spellings of them become special too"
         return None if detail is not None and not bad else f"comparison with the particular spelling(s) {bad}"
     if role == "STORE":
         return None if any(str(detail).endswith(s) for s in ALLOWED_STORES) else f"stored into {detail}"
